@@ -481,6 +481,123 @@ func repliesWithEOF(c *core.Ctx, r *core.Rand, i int) {
 	leak(c, base, "server-replies-with-eof", label)
 }
 
+// lookCtx is a caller context that acts at its k-th consultation (Done or Err): the library looks at the caller's
+// context at well-defined points of an exchange (before sending, while the write is in progress, before and while
+// waiting for the response), so "the k-th look" places a fault exactly between two of the library's own steps.
+type lookCtx struct {
+	context.Context
+	n  atomic.Int32
+	at int32
+	fn func()
+}
+
+func (l *lookCtx) Done() <-chan struct{} {
+	if l.n.Add(1) == l.at {
+		l.fn()
+	}
+	return l.Context.Done()
+}
+
+func (l *lookCtx) Err() error {
+	if l.n.Add(1) == l.at {
+		l.fn()
+	}
+	return l.Context.Err()
+}
+
+// contextLooks: at the k-th look the library takes at the caller's context during one call, either the server end of
+// the connection goes away (and the client has the time to notice it) or the caller's context is cancelled.
+// The call returns its own response or an error; the following calls recover.
+func contextLooks(c *core.Ctx, r *core.Rand, i int) {
+	const maxLook = 14
+	at := int32(1 + i%maxLook)
+	mode := (i / maxLook) % 3
+	label := fmt.Sprintf("look%d-%s", at, []string{"server-end-closed", "caller-cancels", "server-end-closed-after-reading"}[mode])
+	base := len(census.Goroutines())
+	w := newWorld(c, "none", 1<<30)
+	cl, err := kmipclient.Dial("mem", kmipclient.WithDialerUnsafe(w.dialer), kmipclient.EnforceVersion(kmip.V1_4))
+	if err != nil {
+		panic(err)
+	}
+	if (i/(3*maxLook))%2 == 1 {
+		w.call(cl, label+"-warm")
+	}
+	ctx, cancel := context.WithCancel(context.Background())
+	defer cancel()
+	lc := &lookCtx{Context: ctx, at: at}
+	var fired atomic.Bool
+	lc.fn = func() {
+		fired.Store(true)
+		switch mode {
+		case 1:
+			cancel()
+		default:
+			if mode == 2 {
+				// let the request reach the server first, if it is on its way
+				for t := 0; t < 40; t++ {
+					w.mu.Lock()
+					n := w.tx[label+"-x"]
+					w.mu.Unlock()
+					if n > 0 {
+						break
+					}
+					time.Sleep(50 * time.Microsecond)
+				}
+			}
+			for _, sc := range w.srv.Conns() {
+				sc.Close()
+			}
+			// give the client's read loop the time to see the end of the stream and tear the connection down
+			w.mu.Lock()
+			ccs := append([]*memnet.Conn{}, w.clientConn...)
+			w.mu.Unlock()
+			for t := 0; t < 100; t++ {
+				all := true
+				for _, cc := range ccs {
+					all = all && cc.Closed()
+				}
+				if all {
+					break
+				}
+				time.Sleep(50 * time.Microsecond)
+			}
+		}
+	}
+	o := outcome{id: label + "-x"}
+	var resp *payloads.ActivateResponsePayload
+	done := make(chan struct{})
+	go func() {
+		defer close(done)
+		if p, pv, st := core.Guard(func() { resp, o.err = cl.Activate(o.id).ExecContext(lc) }); p {
+			c.Violation(core.PanicSig(pv, st), fmt.Sprintf("client call panicked (%s): %v", label, pv), map[string]any{"stack": st})
+			o.err = errors.New("panic")
+		}
+	}()
+	select {
+	case <-done:
+	case <-time.After(20 * time.Second):
+		c.Violation("C11:hang:context-look", fmt.Sprintf("the call does not return within 20 s (%s)", label), map[string]any{"goroutines": census.Goroutines()})
+		w.srv.Close()
+		return
+	}
+	if o.err == nil && resp != nil {
+		o.got = resp.UniqueIdentifier
+	}
+	if fired.Load() {
+		c.Count("context_look_faults_fired", 1)
+		c.Count(fmt.Sprintf("context_look_faults_fired.mode%d", mode), 1)
+	}
+	c.Distinct(core.Hash64("context-look", label))
+	if o.err == nil && o.got != o.id {
+		c.Violation("C11:wrong-response:context-look", fmt.Sprintf("call %s returned %q (%s)", o.id, o.got, label), nil)
+	}
+	outs := []outcome{w.call(cl, label+"-after1"), w.call(cl, label+"-after2")}
+	w.judge(label, outs)
+	core.Guard(func() { cl.Close() })
+	w.srv.Close()
+	leak(c, base, "context-look", label)
+}
+
 // reconnect failures: the dialer itself fails a few times after the fault, then recovers
 func dialerFails(c *core.Ctx, r *core.Rand, i int) {
 	kind := kinds[i%nClientKinds]
@@ -1045,12 +1162,13 @@ func Spec() *core.Spec {
 			"Monitors: panic/crash, own-id response or error, never two consecutive failed calls, <= 4 transmissions per request, calls fail after Close, goroutine census after Close. a response whose frame-completing Read is handed over only when the connection is closed (call abandoned by cancel, deadline or Close); Close() under a pending call on a transport whose Close is slow; a reconnection dial that stalls until the caller's deadline; a write stalling past the caller's deadline; Dial losing its first connection and failing the negotiation on the second; two fault kinds that leave the peer healthy (io.ErrShortWrite; error after complete delivery); distinct = distinct (scenario kind, fault kind, operation index)",
 		Assumptions: []string{"recovery rule used: while the server is reachable and new connections are fault-free, two consecutive calls never both fail (a call pending at, or first after, the fault may fail)",
 			"goroutines gone = none with a library frame within 10 s of closing the client and the server (bounded progress)"},
-		Required: []string{"calls", "reply_with_eof_scenarios.mode0", "reply_with_eof_scenarios.mode1", "reply_with_eof_scenarios.mode2", "late_responses_held", "stalled_writes", "closes_under_a_call", "stalled_redials", "negotiation_reconnects.second-connection-used", "double_faults_both_fired", "faults_fired.read-eof", "faults_fired.read-reset", "faults_fired.write-epipe", "faults_fired.short-write", "faults_fired.short-write-peer-stays", "faults_fired.write-error-after-delivery", "faults_fired.server-closes-after-reply", "faults_fired.server-closes-after-read",
+		Required: []string{"calls", "context_look_faults_fired.mode0", "context_look_faults_fired.mode1", "context_look_faults_fired.mode2", "reply_with_eof_scenarios.mode0", "reply_with_eof_scenarios.mode1", "reply_with_eof_scenarios.mode2", "late_responses_held", "stalled_writes", "closes_under_a_call", "stalled_redials", "negotiation_reconnects.second-connection-used", "double_faults_both_fired", "faults_fired.read-eof", "faults_fired.read-reset", "faults_fired.write-epipe", "faults_fired.short-write", "faults_fired.short-write-peer-stays", "faults_fired.write-error-after-delivery", "faults_fired.server-closes-after-reply", "faults_fired.server-closes-after-read",
 			"census_checks", "calls_after_close", "repeated_drops.k4", "repeated_drops.k5", "dialer_failure_scenarios", "concurrent_scenarios", "directed.terminate-before-send-select", "directed.close-in-flight"},
 		Shards: func(string) int { return 8 },
 		Families: []core.Family{
 			{Name: "matrix", Exhaustive: true, N: func(string) int { return maxOps * len(kinds) }, Run: matrix, Timeout: 40 * time.Second},
 			{Name: "repeated-drops", Exhaustive: true, N: func(string) int { return 16 }, Run: repeatedDrops, Timeout: 40 * time.Second},
+			{Name: "context-looks", Exhaustive: true, N: func(string) int { return 14 * 3 * 2 }, Run: contextLooks, Timeout: 60 * time.Second},
 			{Name: "replies-with-eof", N: func(tier string) int {
 				if tier == core.Thorough {
 					return 600
